@@ -228,6 +228,25 @@ def run(ctx):
         excs = [exc for b in IN if f.is_noreturn(b) for _, exc, _ in C04.raise_nodes(f, b)]
         ctx.check(len(excs) >= 2 and all(x == PARSER_ERROR for x in excs), "R13.3", f, "setter-raises-parser_error", "short_name() rejections raise %s" % excs, f)
 
+    # who else writes the letter? any other member that modifies short_ (an added overload, a helper) goes around the setter's guards
+    known_patterns = {f.flags.get("instantiation_of") for f in setters} | {f.id for f in setters}
+    others = 0
+    for f in prog.fns.values():
+        if not f.has_cfg or not f.file.startswith("/repo/") or f.id in known_patterns or f.kind in ("ctor", "dtor") or f.flags.get("instantiation"):
+            continue
+        if not ((f.cls or "").startswith(NS + "crtp_base") or (f.cls or "") in (NS + "base", NS + "option", NS + "multi_option", NS + "toggle")):
+            continue
+        for bid, i, e in f.roots():
+            for eff, lv, n in tree_effects(e["expr"], into_sc=False):
+                if eff in ("write", "maybe_write") and lv is not None:
+                    kind, key, _ = lvalue_root(lv)
+                    if kind == "field" and short(key[0]) == "short_" and key[1] == "this":
+                        others += 1
+                        ctx.bad("R13.3", f, "letter-written-only-by-the-guarded-setter:%s" % f.name,
+                                "%s(%s) modifies short_ (`%s`) outside the guarded setter: an already set letter can be replaced without the developer error, and nothing checks that it is one character"
+                                % (f.name, ", ".join(p0.get("type") or "?" for p0 in f.params), fmt(n)[:60]), (f, e.get("ln")))
+    if not others:
+        ctx.ok("R13.3", NS + "base::short_", "letter-written-only-by-the-guarded-setter", "no other member function writes short_", "-")
     # ---- R13.4
     parse = prog.fn(PARSE_VEC)
     cpc = one(ctx, "R13.4", NS + "parser::check_parser_consistency")
@@ -409,4 +428,9 @@ def run(ctx):
                 ctx.bad("R13.5", NS + "parser", op + "-implicit",
                         "group::%s is a `%s` to the owning parser and parser's %s is compiler-generated: after `parser b = std::move(a)` the moved groups "
                         "still refer to `a` (dangling once `a` dies; name checks consult the wrong parser)" % (fl["name"], fl["type"], op.replace("_", " ")), where)
+    # ---- R13.7: resolution compares what the uniqueness guard compares - the declared names themselves (R01.5 re-evaluated)
+    ctx.rule("R13.7", "matches() compares the token's whole name with the option's own name by plain equality (R01.5 re-evaluated): an equivalence wider than the declaration-time uniqueness check lets one spelling resolve to two options")
+    if ctx.prop == "C13" and not getattr(ctx, "_sharing", False):
+        from .common import share
+        share(ctx, "C01", ("R01.5",), "R13.7", "matching obligations shared with C01", 4)
     ctx.assume("new declaration entry points are picked up by R13.4's exhaustiveness, not by R13.1")
